@@ -473,7 +473,7 @@ package runtime
 // hard budget than the parent has left, soft <= hard, flags only grow, the
 // child starts at zero, the parent is saved unchanged.
 //@ func (*runtimeContextManager).PushContext
-//@   prop C07 C08
+//@   prop C07 C08 C05 C06
 //@   arith bv
 //@   requires m != nil
 //@   requires m.status == StatusLive && usedOK(m) && trackOK(m)
